@@ -140,6 +140,7 @@ STYLES = ["unit0", "int0", "frac0", "shift-int", "shift-frac", "unit0", "int0", 
 SIZES = [(1, 1), (2, 1), (1, 2), (3, 1), (1, 3), (2, 2), (3, 2), (2, 3), (3, 3), (1, 4), (4, 1), (4, 2), (2, 4),
          (4, 3), (3, 4), (4, 4), (5, 2), (2, 5), (5, 3), (3, 5), (5, 4), (4, 5), (5, 5), (5, 1), (1, 5), (3, 3),
          (6, 1), (1, 6)]
+BIG_SIZES = [(11, 3), (3, 11), (6, 6), (33, 1), (1, 34), (7, 5), (8, 4), (4, 8)]     # 32..36 cells: beyond 32
 OCC = [Fraction(v, 4) for v in (0, 0, 1, 2, 3, 4, 4, 4, 5, 8)]     # 0, values inside (0, 1], above 1 (5/4, 2)
 
 
@@ -180,12 +181,14 @@ def make_alloc(rng, case, decimal):
         case["bound"] = -10 ** 9
 
 
-def gen_case(rng, small=False, alloc=None, via="file"):
+def gen_case(rng, small=False, alloc=None, via="file", big=False):
     """alloc: None (the grid is given to solve directly), False (through an allocation, dyadic numbers),
     True (through an allocation with decimal coordinates: direct oracle only).
     via: "file" (allocation text -> frame Allocation -> rect_io.get_alloc: positive quadrant only) or "ifile" (the
     parsed input file, the dict get_alloc returns, handed to select_box directly: any origin)."""
     nx, ny = rng.choice(SIZES[:10] if small else SIZES)
+    if big:
+        nx, ny = rng.choice(BIG_SIZES)
     if alloc and via == "ifile":
         xs, ys = gen_axis_decimal_any(rng, nx), gen_axis_decimal_any(rng, ny)
         if rng.random() < 0.5:          # one axis plain, so that the other one's position is what matters
@@ -205,6 +208,10 @@ def gen_case(rng, small=False, alloc=None, via="file"):
         rng.shuffle(order)
     elif m < 0.3:
         order = [r * nx + c for c in range(nx) for r in range(ny)]
+    elif m < 0.36:
+        order.reverse()                                   # bottom-up, right to left
+    elif m < 0.4:
+        order = [r * nx + c for r in reversed(range(ny)) for c in range(nx)]     # rows top-down
     cells = grid_cells(xs, ys, order)
     kind = "grid"
     m = rng.random()
@@ -229,7 +236,7 @@ def gen_case(rng, small=False, alloc=None, via="file"):
         occ = [rng.choice(OCC) for _ in cells]
     if alloc is not None:
         occ = [min(p, Fraction(1)) for p in occ]          # an Allocation keeps ratios in [0, 1]
-    case = {"kind": kind, "cells": cells, "occ": occ, "k": rng.choice([1, 2, 2, 3, 3]), "factor": factor,
+    case = {"kind": kind, "cells": cells, "occ": occ, "k": rng.choice([1, 2, 2] if big else [1, 2, 2, 3, 3]), "factor": factor,
             "ratio": rng.choice([Fraction(2)] * 8 + [Fraction(3)] * 4 + [Fraction(5, 2)] * 4 + [Fraction(3, 2)] * 3 +
                                 [Fraction(1)]), "bound": 0,
             "history": None}
@@ -248,7 +255,11 @@ def gen_case(rng, small=False, alloc=None, via="file"):
     if alloc is not None:
         make_alloc(rng, case, alloc)
         case["alloc"]["via"] = via
-    if rng.random() < 0.15:
+    m = rng.random()
+    if m < 0.1 and not big:
+        # as rect's main does: the SAME carrier and input file are used for several solves (other k, other bound)
+        case["history"] = {"same": True, "k": rng.choice([1, 2, 3]), "bound": rng.randint(minneg - 1, max(maxpos, 1))}
+    elif m < 0.25:
         case["history"] = {"kind": "grid", "cells": grid_cells([Fraction(0), Fraction(1), Fraction(3)],
                                                                [Fraction(0), Fraction(2)], [0, 1]),
                            "occ": [Fraction(1), Fraction(1, 2)], "k": 1, "factor": 4, "ratio": Fraction(2),
@@ -332,11 +343,12 @@ def make_carrier(case):
     return car, ifile
 
 
-def call_solve(case):
-    """Runs rect.solve on the case; returns (carrier, recorded manager or None, return value or exception name)."""
+def call_solve(case, pre=None):
+    """Runs rect.solve on the case; returns (carrier, recorded manager or None, return value or exception name).
+    pre: an existing (carrier, ifile) to be used again."""
     import tools.rect.rect as R
     import tools.rect.satmanager as SM
-    car, ifile = make_carrier(case)
+    car, ifile = pre or make_carrier(case)
     made = []
     orig = SM.SATManager
 
@@ -405,10 +417,15 @@ def run_impl(case):
     del pb.memory[2:]
     pb.memory[0:2] = [0, 1]
     pb.mmap.clear()
-    if case.get("history"):
-        call_solve(case["history"])
+    pre = None
+    h = case.get("history")
+    if h and h.get("same"):
+        pre = make_carrier(case)
+        call_solve(dict(case, k=h["k"], bound=h["bound"]), pre=pre)
+    elif h:
+        call_solve(h)
     mem0_raw = list(pb.memory[2:])
-    car, sm, ret = call_solve(case)
+    car, sm, ret = call_solve(case, pre=pre)
     nmap = NameMap(car)
     obs = {"xs": list(car.xcoords), "ys": list(car.ycoords),
            "prevx": [[k, v] for k, v in car.prev_x.items()], "nextx": [[k, v] for k, v in car.next_x.items()],
@@ -865,7 +882,10 @@ def run(ctx, out, replay=None):
                 "five of which are a single row or column; cells listed row-major, column-major or shuffled; k 1..3; "
                 "occupancies 0, quarters up to 1, 5/4 and 2 (4% all zero, 3% only 0/1); factor 2..16; ratio 2, 3, 2.5, "
                 "1.5 and (1 in 20) 1; bounds from trivially met to unsatisfiable; 6% grids with a missing cell and 3% with "
-                "a degenerate cell (KeyError) for the correspondence only; 15% after an earlier solve in the same process; "
+                "a degenerate cell (KeyError) for the correspondence only; 15% after an earlier solve in the same process, "
+                "10% after an earlier solve (other k, other bound) with the SAME carrier and input-file objects, as rect's "
+                "main does; cells also listed reversed and rows top-down; one case in 100 has 32..36 cells (11x3, 6x6, "
+                "33x1, 1x34, 7x5, 8x4; k <= 2); "
                 "every 8th case reaches the search through a real Allocation, rect_io.get_alloc and select_box - "
                 "alternately with dyadic numbers (select_box compared with the model exactly) and with decimal "
                 "coordinates (tenths, hundredths, twentieths; uniform or not; direct oracle only); two thirds of these "
@@ -886,7 +906,7 @@ def run(ctx, out, replay=None):
         # ... and every other one of those hands the parsed input file to select_box directly (any origin: negative,
         # ending at 0, straddling 0, far from 0)
         cases.append(gen_case(ctx.rng, small=(j % 2 == 0), alloc=(None if j % 8 != 5 else (j % 16 != 5)),
-                              via=("ifile" if j % 8 == 5 and (j // 16) % 3 != 0 else "file")))
+                              via=("ifile" if j % 8 == 5 and (j // 16) % 3 != 0 else "file"), big=(j % 100 == 51)))
     stats = {"sat": 0, "unsat": 0, "keyerror": 0, "zerodiv": 0, "zero_quality_denominator": 0, "enumerated_instances": 0, "models_enumerated": 0,
              "max_clauses": 0, "with_diagram": 0}
 
